@@ -53,7 +53,7 @@ TRUSTED = [
     "VTK is external: vtkPoints / vtkUnstructuredGrid / vtk*Array / vtkXMLUnstructuredGridWriter are replaced by their assumed contract (data accumulates in call order; Write() stores the grid under the given file name); what the real writer puts on disk is covered by the bounded read-back only",
     "object arrays of symbolic reals count as floating-point arrays for dtype_map (np.issubdtype shim inside vtk_export only)",
     "frame times, frame counts and frame rates are enumerated (concrete); every other number of the solution is symbolic",
-    "the export methods of rods (cardillo/rods/_base_export.py: Bezier projection, cross-section surfaces) are covered by the bounded read-back only",
+    "rods: the centerline + directors export level is under contract (executed natively on real rods); the volume levels (Bezier projection, cross-section surfaces) are covered by the bounded read-back only",
 ]
 EXPLANATION = "symbolic native execution of the real Export / make_ugrid / contribution export methods against a recording contract of the VTK classes; path-execution and normal-form obligations on the recorded data; bounded read-back of real files with VTK's reader"
 
@@ -538,3 +538,46 @@ def b_readback(tier, seed):
                     if bad:
                         failures.append({"what": f"rod [{level}]: file {fn} (t={float(f.t):.3f}) does not hold the rod geometry evaluated from the solution at that time", "input": {"seed": seed}, "detail": f"{got['points'].shape} points read, {pts.shape} expected"})
     return {"cases": cases, "distinct": cases, "failures": failures[:12], "bound": f"rod export levels {levels} on a crafted 5-frame solution; {len(configs)} simulated scenes (meshed rigid body, point mass with contact, moving frame, forces) x {'ascii/binary'} x frame rates, every exported frame read back with vtkXMLUnstructuredGridReader (tolerance 1e-5)"}
+
+
+@contract("C29", "geometry/rod centerline + directors", samples=0, replayable=False, timeout=60)
+def c_rod_centerline(k):
+    """RodExportBase.export at level "centerline + directors" (executed natively on real rods whose DOFs are not the leading
+    ones): point j is the centerline point r_OP at xi_j = j / (num - 1) evaluated from the frame's q, the directors are the
+    columns of A_IB there, the cells are Lagrange curves over consecutive groups of p + 1 points"""
+    if not k.sym:
+        raise K.Reject("decided by native execution")
+    from collections import namedtuple
+
+    from cardillo.rods import CircularCrossSection, Simo1986
+    from cardillo.rods._base_export import RodExportBase
+    from cardillo.rods.cosseratRod import make_CosseratRod
+
+    k.covers(RodExportBase.export, RodExportBase.frames, RodExportBase.preprocess_export)
+    rng = np.random.default_rng(29)
+    R = namedtuple("Result", ["t", "q", "u"])
+    with npshim.active(False), warnings.catch_warnings():
+        warnings.simplefilter("ignore")
+        for interp, deg, nel in (("Quaternion", 2, 3), ("R12", 1, 2), ("SE3", 1, 2)):
+            Rod = make_CosseratRod(interpolation=interp, mixed=True, polynomial_degree=deg)
+            q0 = Rod.straight_configuration(nel, 1.3, r_OP0=np.array([0.2, -0.1, 0.4]))
+            rod = Rod(CircularCrossSection(0.05), Simo1986(np.array([5, 1, 1.0]), np.array([0.5, 2, 2.0])), nel, Q=q0, q0=q0)
+            off = 5
+            rod.qDOF = np.arange(len(q0)) + off
+            rod._export_dict["level"] = "centerline + directors"
+            q = np.concatenate([rng.normal(size=off), q0 + 0.05 * rng.normal(size=len(q0)), rng.normal(size=3)])
+            pts, cells, pd, cd = rod.export(R(0.7, q, None))
+            pts = np.asarray(pts, dtype=float)
+            p = rod.polynomial_degree_r
+            num = p * nel + 1
+            tag = f"[{interp}, degree {deg}, {nel} elements]"
+            k.prove(f"{p * nel + 1} points, {nel} Lagrange-curve cells over consecutive groups of p + 1 points {tag}", pts.shape == (num, 3) and len(cells) == nel and all(list(c[1]) == [i * p, i * p + p] + [i * p + j for j in range(1, p)] for i, c in enumerate(cells)))
+            qb = q[rod.qDOF]
+            ok_r, ok_d = True, True
+            for j, xi in enumerate(np.linspace(0, 1, num)):
+                qp = qb[rod.local_qDOF_P(xi)]
+                ok_r &= bool(np.allclose(pts[j], rod.r_OP(0.7, qp, xi), atol=1e-12))
+                A = rod.A_IB(0.7, qp, xi)
+                ok_d &= all(np.allclose(np.asarray(pd[nm])[j], A[:, i], atol=1e-12) for i, nm in enumerate(("d1", "d2", "d3")))
+            k.prove(f"point j = r_OP at xi = j / (num - 1), from the rod's own slice of the frame's q {tag}", ok_r)
+            k.prove(f"directors = columns of A_IB at the same points {tag}", ok_d and sorted(pd) == ["d1", "d2", "d3"])
